@@ -25,9 +25,10 @@ level("C15",
             "with a group action commuting with its step function and a strict preference order whose ties inside an orbit are equalities (invariant: board 0 = tfn•input position; two runs on step-wise images of one game have the same board 0, "
             "their transforms differ by a stabiliser element of it, and the preferred move of a stabiliser orbit is unique); Proofs/CanonTak.lean instantiates it with C14's step_equivariant and the laws of Sym.state/Sym.raw/preferMove. "
             "canonical_refines: on sizes 3..8 the bit-level model Tak.canonical (eight positions replayed through Pos.apply, stabiliser test by Hash(), TransformMove in int8 arithmetic on words built by compose) returns exactly Spec.canon's result "
-            "for every game that has one, under PosFacts2 and NoCollisionAt; model_canonical_properties combines the four."),
-      note=("canonical_refines is conditional on PosFacts2 — New/Move keep an invariant Inv, Move accepts exactly the rule-book-legal moves and yields the rule-book successor (C01), positions showing the same board/reserves/ply have the same Hash() (C08), "
-            "the k-th rebuilt image shows the k-image — which are other properties' theorems and are NOT proved here, and on NoCollisionAt (no position showing a different image of a canonical board of a prefix of the game has that board's hash), which no theorem can carry. "
+            "for every game that has one, under PosFacts2 and NoCollisionAt; canonical_refines_default: for the default games on 3x3..6x6 PosFacts2 is discharged from C01.move_refines, C08.hash_congr and C02.analyze_ne_none "
+            "(piece budget <= 62, so the 64-piece limit cannot be reached), leaving NoCollisionAt as the only assumption; model_canonical_properties combines the four."),
+      note=("On 7x7 and 8x8 canonical_refines stays conditional on PosFacts2 (New/Move keep an invariant, Move accepts exactly the rule-book-legal moves and yields the rule-book successor, positions showing the same board/reserves/ply have the same Hash()) "
+            "because C01's refinement needs the 64-piece stack limit, which only the <= 62-piece games guarantee; and on all sizes on NoCollisionAt (no position showing a different image of a canonical board of a prefix of the game has that board's hash), which no theorem can carry. "
             "Independently of these, every run checks canon (bit-level model vs Go), scanon (Spec.canon vs Go directly) and canonchk (the three clauses evaluated on the real code and on the model) on games biased to stay or become self-symmetric "
             "(about a quarter are self-symmetric at ply >= 4, a fifth re-enter symmetry), their eight images, prefixes, double application, a malformed stream, and exhaustively on all legal games of <= 2 plies (3x3, 4x4) and 3 plies (3x3) in the quick tier, "
             "<= 4 plies on 3x3/4x4 and <= 3 on 5x5 in the thorough tier."))
